@@ -40,7 +40,7 @@ CONFIG = {
                   'thorough': {'c04.R1': 40000}},
     'must_sig': ['R1:CTL=LTL', 'R1:CTL=CTLS', 'R1:LTL=CTLS', 'R1:PL',
                  'R1:cast', 'R5:EU', 'R5:AU', 'R5:ER', 'R5:AR', 'R5:EG',
-                 'R5:AG', 'R5:EF', 'R5:AF', 'R4:ctls'],
+                 'R5:AG', 'R5:EF', 'R5:AF', 'R4:ctls', 'R2:synonyms_spacing', 'R2:nary_text'],
     'rule': ('cases = relation instances (relation, structure, formula or '
              'pair of formulas); structures: class representatives with <=2 '
              'states (quick: plus a sample of 3-state ones; thorough: all) '
@@ -136,6 +136,26 @@ def r1_ctl_ctls(nk, K, t, i):
               call('CTLS', K, mcwork.text_of('CTLS', t))]
         relate('R2', 'ctl_text', nk, K, [t], rs,
                lambda r, S: r[0] == r[1] == r[2], 'text = object')
+    if i % 4 == 2:
+        rr = gen.rng(0, PROP, ('fancy', i))
+        rs = [a, call('CTL', K, mcwork.fancy_text('CTL', t, rr)),
+              call('CTLS', K, mcwork.fancy_text('CTLS', t, rr))]
+        relate('R2', 'synonyms_spacing', nk, K, [t], rs,
+               lambda r, S: r[0] == r[1] == r[2],
+               'text with ~ | & and irregular blanks = object')
+        # n-ary and/or as ONE text operator vs object vs nested binary
+        g = ('ap', 'q')
+        t3 = ('and', t, g, ('not', t))
+        o3 = ('or', t, g, ('not', g))
+        for tn, nested in ((t3, ('and', ('and', t, g), ('not', t))),
+                           (o3, ('or', t, ('or', g, ('not', g))))):
+            rs = [call('CTL', K, obj('CTL', tn)),
+                  call('CTL', K, mcwork.text_of('CTL', tn)),
+                  call('CTLS', K, mcwork.fancy_text('CTLS', tn, rr)),
+                  call('CTL', K, obj('CTL', nested))]
+            relate('R2', 'nary_text', nk, K, [tn], rs,
+                   lambda r, S: r[0] == r[1] == r[2] == r[3],
+                   'n-ary operator: text = object = nested binary')
 
 
 def r1_ltl_ctls(nk, K, g, i):
@@ -144,6 +164,13 @@ def r1_ltl_ctls(nk, K, g, i):
     b = call('CTLS', K, obj('CTLS', t))
     relate('R1', 'LTL=CTLS', nk, K, [t], [a, b],
            lambda r, S: r[0] == r[1], 'LTL.mc(A g) = CTLS.mc(A g)')
+    if i % 4 == 2:
+        rr = gen.rng(0, PROP, ('fancyl', i))
+        rs = [a, call('LTL', K, mcwork.fancy_text('LTL', t, rr)),
+              call('CTLS', K, mcwork.fancy_text('CTLS', t, rr))]
+        relate('R2', 'synonyms_spacing', nk, K, [t], rs,
+               lambda r, S: r[0] == r[1] == r[2],
+               'text with ~ | & and irregular blanks = object')
     if i % 4 == 0:
         rs = [a, call('LTL', K, mcwork.text_of('LTL', t)),
               call('CTLS', K, obj('LTL', t).cast_to(lang('CTLS'))),
